@@ -79,6 +79,11 @@ def run(tier, seed):
     # the complete state graph of the two-class world (every transition, no depth bound in effect)
     rows, g0 = gen.bfs(SPEC, "Clos", "Clos.cfg", {"MaxOps": 9, "NC": 2}, timeout=3000)
     stimuli += to_stim(rows)
+    # order independence on fixed shapes: the chain ca <- cb <- cc and the diamond cd (cb cc), classes and methods in every order
+    rows, gc = gen.bfs(SPEC, "Clos", "ClosChain.cfg", {}, timeout=3000)
+    stimuli += to_stim(rows)
+    rows, gd = gen.bfs(SPEC, "Clos", "ClosChain.cfg", {"NC": 4, "MaxOps": 8 if quick else 9}, timeout=3000)
+    stimuli += to_stim(rows)
     n_bfs = len(stimuli)
     rows, g2 = gen.sim(SPEC, "Clos", "ClosSim.cfg", {}, num=walks, depth=14, seed=seed, timeout=3000)
     stimuli += to_stim(rows)
@@ -117,7 +122,7 @@ def run(tier, seed):
                             "defined class precedence list, slots of fresh instances without / with :s 77, reader, class-of and typep against "
                             "every class are compared with the values TLC computed. distinct_nontrivial = distinct expected observations",
                     "samples": [{"stimulus": s["ops"], "expect": s["expect"]} for s in (stimuli[n_bfs // 2], stimuli[-1])],
-                    "gen": [g, g0, g2], "probes": {k: len(v) for k, v in hit.items()}})
+                    "gen": [g, g0, gc, gd, g2], "probes": {k: len(v) for k, v in hit.items()}})
     rep.assumptions = ["class names are immaterial (first mention in the order ca, cb, ...)",
                        "when :s is not an initarg of any slot the outcome of passing it is not constrained",
                        "a redefinition that introduces a not-yet-defined superclass is outside the statement and not generated"]
